@@ -72,7 +72,9 @@ def _resolve_list(P, fi, node, depth=0):
         return None
     if isinstance(node, ast.Name):
         binds = [n.value for n in ast.walk(fi.node) if isinstance(n, ast.Assign) and len(n.targets) == 1
-                 and isinstance(n.targets[0], ast.Name) and n.targets[0].id == node.id]
+                 and isinstance(n.targets[0], ast.Name) and n.targets[0].id == node.id] + \
+                [n.value for n in ast.walk(fi.node) if isinstance(n, ast.AnnAssign) and n.value is not None
+                 and isinstance(n.target, ast.Name) and n.target.id == node.id]
         if len(binds) == 1:
             return _resolve_list(P, fi, binds[0], depth + 1)
         if not binds and node.id in fi.module.assigns:
